@@ -415,7 +415,12 @@ class Byzantine:
                                            {'type': R.P_VENDOR, 'data': b'outer-vendor-' + bytes([65 + r.randrange(26)])},
                                            {'type': r.choice([47, 49, 200]), 'data': bytes(r.getrandbits(8) for _ in range(r.choice([0, 4, 12]))), 'critical': False}]))
                 self.watch._r('byz.outer_payloads_before_sk')
-            data = _seal_raw(h, first, chain, integ_id, sk_a, sk_e, bytes(r.getrandbits(8) for _ in range(16)), outer=outer)
+            extra = 0
+            if r.random() < 0.2:
+                # more padding than the minimum (the recipient MUST accept any Pad Length that gives proper alignment)
+                extra = r.choice([1, 2, 7, 14])
+                self.watch._r('byz.over_padded')
+            data = _seal_raw(h, first, chain, integ_id, sk_a, sk_e, bytes(r.getrandbits(8) for _ in range(16)), outer=outer, pad_extra=extra)
             return data, exp, (pls if exp[0] != 'trailing' else None)
         # clear: an IKE_SA_INIT request is parsed in full whoever sends it (a new responder IKE_SA)
         flags = 0x08 | (flags_variety & 0x10)
